@@ -66,7 +66,7 @@ DIRECTED = [
     {'name': 'variable_choice', 'force': {'J': 5, 'av_mode': 'mixed', 'choice_mode': 'variable', 'n_alone': 2}},
     {'name': 'large_band', 'force': {'J': 5, 'av_mode': 'var', 'vband': 30.0, 'n_alone': 1}},
     {'name': 'alpha_zero_dead_nest', 'force': {'labels': [1, 2, 3], 'av_mode': 'var', 'util_form': 'var', 'override': {
-        'cnl': [{'param': 2.0, 'kind': 'float', 'alpha': [[1, 0.0], [2, 0.6]]},
+        'cnl': [{'param': 2.0, 'kind': 'beta_free', 'alpha': [[1, 0.0], [2, 0.6]]},
                 {'param': 1.5, 'kind': 'beta_free', 'alpha': [[1, 1.0], [2, 0.4], [3, 1.0]]}],
         'mu_cnl': 1.2, 'alpha_kind': 'float',
         'rows': [{'V': [0.5, 0.1, -0.3], 'A': [1, 1, 1]}, {'V': [0.5, 0.1, -0.3], 'A': [1, 0, 1]}, {'V': [-1.0, 2.0, 0.25], 'A': [1, 0, 0]}]}}},
